@@ -1,0 +1,32 @@
+// Copyright 2021 TiKV Project Authors.
+//
+// Licensed under the Apache License, Version 2.0 (the "License");
+// you may not use this file except in compliance with the License.
+// You may obtain a copy of the License at
+//
+//     http://www.apache.org/licenses/LICENSE-2.0
+//
+// Unless required by applicable law or agreed to in writing, software
+// distributed under the License is distributed on an "AS IS" BASIS,
+// See the License for the specific language governing permissions and
+// limitations under the License.
+
+//go:build verif
+// +build verif
+
+package election
+
+import "time"
+
+// VerifLeaseExpireTime returns the local expire time of the current lease
+// (the zero time if there is no lease or it has been reset).
+func (ls *Leadership) VerifLeaseExpireTime() time.Time {
+	l := ls.getLease()
+	if l == nil {
+		return time.Time{}
+	}
+	if t, ok := l.expireTime.Load().(time.Time); ok {
+		return t
+	}
+	return time.Time{}
+}
